@@ -74,7 +74,7 @@ def setup():
     bad = 0
     for f in sorted(os.listdir(C.SPEC)):
         if f.endswith(".tla"):
-            env = dict(os.environ, JAVA_TOOL_OPTIONS="-DTLA-Library=%s:%s" % (C.SPEC, wd))
+            env = dict(os.environ, JAVA_TOOL_OPTIONS="-DTLA-Library=%s:%s:%s" % (C.SPEC, os.path.join(C.SPEC, "params"), wd))
             r = subprocess.run(["java", "-cp", C.TLC_CP, "tla2sany.SANY", os.path.join(C.SPEC, f)], cwd=wd,
                                stdout=subprocess.PIPE, stderr=subprocess.STDOUT, text=True, env=env)
             if "Semantic errors" in r.stdout or "Could not" in r.stdout or "Parse Error" in r.stdout or "Fatal" in r.stdout:
@@ -1087,7 +1087,7 @@ def c09(tier):
         s.model("MCErrorQueue", ("MCErrorQueueParams", [("K", str(K)), ("MaxOps", "7" if tier == "quick" else "9"), ("Variant", '"spec"')]),
                 label="MCErrorQueue(K=%d)" % K, workers=4)
     s.model("MCErrorQueue", ("MCErrorQueueParams", [("K", "2"), ("MaxOps", "6"), ("Variant", '"dropoldest"')]),
-            expect_violation="OlderIntact", label="MCErrorQueue mutant: overflow drops the oldest")
+            expect_violation=("OlderIntact", "OverflowAtBack"), label="MCErrorQueue mutant: overflow drops the oldest")
     s.model("MCErrorQueue", ("MCErrorQueueParams", [("K", "2"), ("MaxOps", "6"), ("Variant", '"dropnew"')]),
             expect_violation="OverflowAtBack", label="MCErrorQueue mutant: overflow drops the new error silently")
     # 2. end to end: every grouping of faults / queries / commands into messages, implementation-shaped run refines
@@ -1229,11 +1229,31 @@ def c03_literals(rng, tier):
     return out
 
 
+def float_definition_tie(s, tier):
+    """MCScpiFloat: TLC evaluates ScpiFloat's definition of correct rounding on miniature formats and
+    prints the table; the exact-rational evaluator used for f32/f64 must reproduce every row."""
+    from fractions import Fraction
+    from vlib import floats as F
+    rows = []
+    s.model("MCScpiFloat", ("MCScpiFloatParams", [("MaxM", "40" if tier == "quick" else "99"), ("MaxE", "2"),
+            ("Formats", "{[p |-> 3, emin |-> -2, emax |-> 3], [p |-> 4, emin |-> -1, emax |-> 2]}")]),
+            on_line=rows.append, label="MCScpiFloat(definition of correct rounding on p=3,4 formats)", workers=8)
+    for x in rows:
+        v = Fraction(x["m"]) * Fraction(10) ** x["e"]
+        res = F.round_binary(v, x["p"], x["emin"], x["emax"])
+        scale = Fraction(2) ** (x["p"] - 1 - x["emin"])
+        ok = x["inf"] if res == ("inf",) else ((not x["inf"]) and Fraction(res[0]) * Fraction(2) ** res[1] * scale == x["r"])
+        if not ok:
+            raise C.ToolError("bin/vlib/floats.py disagrees with ScpiFloat's definition on %r (python: %r)" % (x, res))
+    s.cov["float_definition_rows_replayed"] = len(rows)
+
+
 def c03(tier):
     from vlib import floats as F
     s = Session("C03", tier)
     C.build_harness()
     C.write_ifaces_module(s.wd)
+    float_definition_tie(s, tier)
     for (sig, L) in ([("0179+-.E", 4), ("#HhB017F", 4), ("#Q0178 ", 4)] if tier == "quick" else [("0179+-.Ee", 5), ("#HhBbQq0178F", 5), ("ONFTRUEaf", 4)]):
         s.model("MCScpiValues", ("MCScpiValuesParams", [("Sigma", "{%s}" % ",".join(str(ord(c)) for c in sig)), ("MaxLen", str(L))]),
                 label="MCScpiValues(Sigma=%r, L<=%d)" % (sig, L), workers=8)
@@ -1305,6 +1325,7 @@ def c04(tier):
     s = Session("C04", tier)
     C.build_harness()
     C.write_ifaces_module(s.wd)
+    float_definition_tie(s, tier)
     s.model("MCScpiResponse", ("MCScpiResponseParams", [("Legacy", "FALSE")]), label="MCScpiResponse(RoundTrip, Injective)", workers=8)
     s.model("MCScpiResponse", ("MCScpiResponseParams", [("Legacy", "TRUE")]), expect_violation="RoundTrip",
             label="MCScpiResponse legacy: embedded quotes not doubled")
@@ -1376,3 +1397,79 @@ def c04(tier):
 
 
 CHECKS["C04"] = c04
+
+
+# ----------------------------------------------------------------------- C13
+def c13(tier):
+    s = Session("C13", tier, level="exploration")
+    C.build_harness()
+    C.write_ifaces_module(s.wd)
+    t0 = time.time()
+    # build half: default features, no std, no allocator, through the macro
+    nd = os.path.join(C.HARNESS, "nostd")
+    env = dict(os.environ, CARGO_NET_OFFLINE="true")
+    builds = []
+    for cmd, cwd, what in [(["cargo", "build", "--offline", "-q"], nd, "no_std staticlib using the macro, default features, panic=abort, no allocator"),
+                           (["cargo", "build", "--offline", "-q", "-p", "microscpi"], C.REPO, "cargo build -p microscpi (default features)")]:
+        r = subprocess.run(cmd, cwd=cwd, env=env, stdout=subprocess.PIPE, stderr=subprocess.STDOUT, text=True)
+        builds.append({"what": what, "ok": r.returncode == 0})
+        if r.returncode != 0:
+            errs = "\n".join(l for l in r.stdout.splitlines() if l.startswith("error"))[:600]
+            p = C.write_replay("C13", "build-%d" % len(builds), {"why": what + " failed", "output": r.stdout[-3000:], "kind": "build"})
+            s.violations.append(("%s does not build: %s" % (what, errs), p))
+    s.cov["builds"] = builds
+    # allocation half: a broad mix of the other checks' inputs through fixed-capacity writers and process;
+    # TraceScpi's monitors require allocs = 0 on every run / session that does not use the std writer
+    writers = [{"k": "rec"}, {"k": "heapless", "cap": 64}, {"k": "heapless", "cap": 8}, {"k": "heapless", "cap": 0}, {"k": "rec", "cap": 5}]
+    cases = []
+    vocab = VOCAB_FAULT + VOCAB_PATH + ["MEAS:VOLT?", "C?", "*Q?", "A:H? #15hello", "A:E? 'abc\"def'", "A:B:D?", "A:P 7,'s',#12ab", "A:S \"x\ny\"", "A:K #13a\nb"]
+    for _ in range(600 if tier == "quick" else 6000):
+        msgs = random_history(s.rng, vocab, s.rng.randint(1, 6), maxunits=3)
+        whole = "".join(msgs)
+        procs = [{"N": N, "chunks": s.rng.choice([[], [1] * len(whole), random_chunks(s.rng, len(whole))])} for N in s.rng.sample(range(1, 33), 2) + [64]]
+        cases.append({"kind": "multi", "iface": "main", "in": b(whole), "writers": writers, "procs": procs})
+    lits = c03_literals(s.rng, "quick")
+    s.rng.shuffle(lits)
+    for ty, lit in lits[:1500 if tier == "quick" else 8000]:
+        cases.append({"kind": "multi", "iface": "vals", "in": b("V:%s %s\n" % (TYNAME[ty], lit)), "writers": [{"k": "rec"}, {"k": "heapless", "cap": 64}], "procs": [{"N": 64, "chunks": []}]})
+    desc = json.load(open(os.path.join(C.SPEC, "ifaces", "resp.json")))
+    for c in desc["cmds"]:
+        sp = c["beh"].get("spec", {})
+        n = len(sp["vals"]) if sp.get("k") == "table" else 0
+        for i in range(n):
+            cases.append({"kind": "multi", "iface": "resp", "in": list(("%s %d\n" % (c["cmd"], i)).encode()), "writers": [{"k": "rec"}, {"k": "heapless", "cap": 2048}, {"k": "heapless", "cap": 16}],
+                          "procs": [{"N": 1024, "chunks": []}, {"N": 64, "chunks": []}]})
+    for _ in range(200 if tier == "quick" else 3000):
+        cases.append({"kind": "multi", "iface": "resp", "in": list(("R:F64? %d;:R:F32? %d\n" % (s.rng.getrandbits(64), s.rng.getrandbits(32))).encode()),
+                      "writers": [{"k": "rec"}, {"k": "heapless", "cap": 2048}], "procs": [{"N": 1024, "chunks": []}]})
+    for K in (1, 4, 10):
+        for _ in range(60 if tier == "quick" else 600):
+            msgs = random_history(s.rng, QUEUE_VOCAB + ["D !"], s.rng.randint(3, 20), maxunits=3)
+            whole = "".join(msgs)
+            cases.append({"kind": "multi", "iface": "queue%d" % K, "in": b(whole), "writers": [{"k": "rec"}, {"k": "heapless", "cap": 64}],
+                          "procs": [{"N": 64, "chunks": random_chunks(s.rng, len(whole))}, {"N": 16, "chunks": []}]})
+    for i in range(200 if tier == "quick" else 3000):
+        data = bytes(s.rng.randrange(256) for _ in range(s.rng.choice([3, 17, 64, 300])))
+        cases.append({"kind": "multi", "iface": "main", "in": b(data), "writers": writers[:3], "procs": [{"N": 16, "chunks": []}, {"N": 64, "chunks": [1] * len(data)}]})
+    recs = s.execute(cases, "c13")
+    nobs = 0
+    for r in recs:
+        for o in r["obs"]["runs"] + r["obs"]["procs"]:
+            nobs += 1
+    s.cov["executions_with_allocation_counter"] = nobs
+    rejected = s.validate(recs, "c13", chunk=300)
+    s.report_rejected(rejected, "the library allocated on the heap while parsing / dispatching / formatting into a fixed-capacity buffer "
+                                "(or another monitor of the trace specification failed)")
+    s.sample([{"in": C.show_bytes(c["in"]), "iface": c["iface"], "writers": c["writers"][:2]} for c in cases[:2]])
+    s.cov["distinct_nontrivial"] = max(len(s._distinct), 2)
+    s.cov["rule"] = ("build half: a #![no_std] allocator-less staticlib instantiating an interface through the macro against microscpi with default features, and "
+                     "cargo build -p microscpi; run-time half: a counting global allocator that counts only while library code runs (harness code and the "
+                     "recording doubles pause it) over seeded message sequences, every literal class of C03, every response-table entry of C04, random float "
+                     "bit patterns, error-queue sessions and random bytes, through run() into heapless::Vec / bounded pass-through writers and through "
+                     "process::<N>; every record carries its allocation count and TraceScpi's monitors require 0; non-trivial = handler invoked, error or output")
+    s.assumptions += ["the build half is decided by the compiler's exit status, not by TLA+ (see DESIGN.md section 5)",
+                      "allocation counts exclude the std::Vec writer, whose write_fmt allocates by design (format!)"]
+    return s.finish(exhaustive=False)
+
+
+CHECKS["C13"] = c13
